@@ -4,8 +4,11 @@ import os
 
 
 def prepare_family(fam, summ, outdir):
-    if fam.get("emit") == "ledger":
+    emit = fam.get("emit")
+    if emit == "ledger":
         from ledger_cases import traces_to_shards
-        shards = traces_to_shards(outdir, summ)
-        summ["shards"] = shards
+        summ["shards"] = traces_to_shards(outdir, summ)
+    elif emit == "data":
+        from data_cases import traces_to_shards
+        summ["shards"] = traces_to_shards(outdir, summ)
     return summ
